@@ -145,6 +145,10 @@ pub async fn type_definition(
                                         if let Some(entry @ GlobalEntry::Type(t)) =
                                             doc.table.lookup(creator)
                                         {
+                                            // a variable named `int` creates its own array type
+                                            if Entry::from(entry).is_default() {
+                                                return Ok(None);
+                                            }
                                             return Ok(Some(Location {
                                                 uri,
                                                 range: as_pos_range(
